@@ -86,3 +86,8 @@ def run(ctx) -> None:
                     ctx.check(ok, "C01.R4.flag-loaded", "JASMConfig._load_full_match_options",
                               f"{key}:{'unset' if not vals else vals[-1]}!={want} for config {sorted(cfg)}",
                               f"config {cfg}: flag {key} is stored as {want} on every load (absent key = False)")
+    # Z: end to end on stream templates: the compiled regex of whole rules, under each flag setting, searched in token
+    # templates of the instruction stream (every instantiation at once): found exactly where the property says, else not
+    from ..models import make_interp as _mk
+    from ..streamshapes import end_to_end
+    end_to_end(ctx, _mk(ctx.p), "C01", "C01.Z.found-where-the-property-says", "C01.Z.not-found-elsewhere")
